@@ -25,7 +25,7 @@ RULE = ("ChaosModel(seed, cfg): plain / grid / line / continuous (wrapping or no
         "inside timesteps; non-trivial = >=1 pick and >=1 shuffle over >=3 agents and >=1 perturbation fired between "
         "two draws; distinct = (world, system mix, perturbation kinds and placement); cross-environment arm: fresh "
         "interpreters under other PYTHONHASHSEEDs and real batch_run workers"
-        "; also: str / bytes / float label seeds, environments handed from a builder model to the run model (Environment.set_model), a grid-walk system that reorders the neighbour lists it gets from the world in place; secondary arm: a Core-only model in fresh interpreters with and without numpy / ECAgent.Environments imported beforehand")
+        "; also: str / bytes / float label seeds, environments handed from a builder model to the run model (Environment.set_model), a grid-walk system that reorders the neighbour lists it gets from the world in place; secondary arms: a model built here and finished in a forked child; a Core-only model in fresh interpreters with and without numpy / ECAgent.Environments imported beforehand")
 COMPONENTS = {"real": ["ECAgent.Core.Model.random", "Environment.get_random_agent / shuffle / get_agents",
                        "SpaceWorld / GridWorld / LineWorld add_agent, move, remove_agent", "AgentCollector",
                        "ECAgent.Batching.batch_run with the real multiprocessing.Pool (cross-environment arm)"],
@@ -295,6 +295,26 @@ def post_batch(tier, seed):
             if any(d != here[j] for d in pair) or len(pair) < 2:
                 return {"violation": {"kind": "trajectory-depends-on-worker-process", "arm": how, "seed": js[j][0],
                                       "cfg": js[j][1], "digest_here": here[j], "digests_workers": pair}}
+    # a model built (and partly run) in this process and finished in ANOTHER one - a forked child - follows the same trajectory
+    for j, (s, c) in enumerate(jobs[:6 if tier == "quick" else 30]):
+        mdl = chaos.ChaosModel(real_seed(s), json.dumps(c, sort_keys=True))
+        for _ in range(max(1, c["horizon"] // 3)):
+            mdl.execute()
+        r_, w_ = os.pipe()
+        pid = os.fork()
+        if pid == 0:
+            try:
+                os.close(r_)
+                os.write(w_, mdl.run_all().encode())
+            finally:
+                os._exit(0)
+        os.close(w_)
+        got = os.read(r_, 100).decode()
+        os.close(r_)
+        os.waitpid(pid, 0)
+        if got != here[j]:
+            return {"violation": {"kind": "trajectory-depends-on-the-process-that-steps-the-model", "seed": s, "cfg": c,
+                                  "digest_here": here[j], "digest_finished_in_forked_child": got}}
     # what the process has imported is ambient state too: a model that needs nothing but ECAgent.Core must run the same in an
     # interpreter that never loaded numpy and in one that did (the harness itself always has numpy loaded, hence real processes)
     cjobs = []
